@@ -170,6 +170,14 @@ def exec : Stmt → List Int → St → List (Flow × St)
         | _ => (f, s')
   | .opaque _, _, s => [(.normal, { s with bad := true })]
 
+/-- duration of a `do_delay`, resolved by the translator: a number of half seconds (class constants and config.ini
+    values evaluated on the running code), or a duration setting (`self.__x.total_seconds()`) -/
+inductive Dur
+  | halfSeconds (n : Nat)
+  | setting (name : String)
+  | unknown (src : String)
+  deriving Repr, DecidableEq, Inhabited
+
 /-- One row of the flattened transition table: what the real machine does for `trigger` in leaf `src` under
     one valuation of the guards of that trigger (obtained by executing the machine). `pre` are the callbacks
     run before the state changes (before_state_change, before, exits), `post` those after (enters, after). -/
